@@ -17,9 +17,9 @@ def gen(rng, tier):
 globals().update(acct_prop.make(
     'C09', components=['frozen.', 'reserve.amount', 'trade.', 'validate.verdict'], clauses=['C09.'], gen=gen,
     analyser=acct_prop.combine(acct.analyse, ordering.analyse), prelude=acct_prop.COMBINED_PRELUDE,
-    coq=['Model/Matcher.v', 'Model/Order.v', 'Proofs/OrderFacts.v', 'Proofs/ComposeFacts.v', 'Model/Sizing.v', 'Model/Validators.v', 'Proofs/ValidatorsFacts.v', 'Gen/ValidatorChain.v', 'Proofs/ReserveFacts.v', 'Gen/Reserve.v', 'Model/Broker.v', 'Proofs/BrokerFacts.v', 'Gen/BrokerProg.v'], gen_mods=['Costs', 'Reserve', 'BrokerProg', 'ValidatorChain'],
+    coq=['Model/Matcher.v', 'Model/Order.v', 'Proofs/OrderFacts.v', 'Proofs/ComposeFacts.v', 'Proofs/ComposeManyFacts.v', 'Model/Sizing.v', 'Model/Validators.v', 'Proofs/ValidatorsFacts.v', 'Gen/ValidatorChain.v', 'Proofs/ReserveFacts.v', 'Gen/Reserve.v', 'Model/Broker.v', 'Proofs/BrokerFacts.v', 'Gen/BrokerProg.v'], gen_mods=['Costs', 'Reserve', 'BrokerProg', 'ValidatorChain'],
     rule=('random scenarios with many concurrent limit and market orders, partial fills under volume caps (daily auction + bar, minute bars), '
           'cancels of resting and of final orders, matcher-side rejects and end-of-day expiry; a case is one recorded order event or trade '
           '(reserve amount, reserve on PENDING_NEW, release on trade / cancel / reject / expiry) or the verdict of the validator chain (cash check against available cash) on an order that reached it, replayed through the Coq model; distinct '
           'non-trivial = distinct (event kind x order status x partly filled x instrument kind x effect) classes'),
-    assumptions=['float64 rounding not modelled', 'the broker protocol hypothesis of C09_frozen_invariant is discharged for a single order by the lifecycle machine (C09_protocol_discharged_by_lifecycle); for interleavings of several orders it is what C04 checks on the same runs']))
+    assumptions=['float64 rounding not modelled', 'the broker protocol hypothesis of C09_frozen_invariant is discharged by the lifecycle machines for every interleaving of any number of orders (C09_every_interleaving); that the machine is SimulationBroker is the correspondence of C04 on the same runs']))
